@@ -307,6 +307,9 @@ DROPPING = {"filter", "filter_map", "take", "skip", "take_while", "skip_while", 
             "dedup", "dedup_by", "dedup_by_key", "truncate", "drain", "pop", "swap_remove", "find", "find_map", "nth", "last"}
 
 
+SOURCE_READ = re.compile(r"^(from_slice|from_str|from_reader|read|read_to_string|read_to_end|decode|list_\w+|collect_\w+|\w+_log|record_stream|event_stream|load_\w+|read_dir|next_entry|entries|keys|values|iter|into_iter)$")
+
+
 def r7_nothing_filtered(ctx):
     """The upgrader carries over whatever it reads: no element-dropping
     adaptor (filter, filter_map, take, skip, retain, dedup, truncate ..) on
@@ -317,6 +320,7 @@ def r7_nothing_filtered(ctx):
     assert "filter_map" in DROPPING          # the matcher itself (positive control of the name table)
     nmap = 0
     idx = {}
+    fgs = {}
     for root, fn in sorted(ws.fns.items()):
         if fn.crate != "sos_database_upgrader":
             continue
@@ -328,6 +332,11 @@ def r7_nothing_filtered(ctx):
             if nm in ("map", "collect", "into_iter", "iter", "extend", "push"):
                 nmap += 1
             if nm in DROPPING and re.search(r"(iter|Iterator|Vec|slice|VecDeque|HashMap|IndexMap)", c + " " + (t.get("trait") or "")):
+                # only collections that carry data read from the source account
+                fg_ = fgs.setdefault(root, FlowGraph(ws, fn))
+                sl_ = fg_.back_from_operand(b, t["args"][0]) if t.get("args") else None
+                if sl_ is not None and not any(SOURCE_READ.search(cname(ct)) for _b, _i, ct in sl_.calls):
+                    continue
                 idx[root] = idx.get(root, 0) + 1
                 r.violation("%s|%s#%d" % (root, nm, idx[root]), cfg.loc(b, i),
                             "`%s` drops elements of a collection the upgrader migrates: whatever does not pass (e.g. a server origin that is not in remap_servers) silently disappears from the upgraded account" % nm, work=1)
